@@ -283,7 +283,12 @@ def parse_youtube_url(url, fix_common_mistakes=True):
     if parsed.hostname and parsed.hostname.endswith("youtu.be"):
 
         if path.count("/") > 0:
-            v = pathsplit(path)[0]
+            parts = pathsplit(path)
+
+            if not parts:
+                return
+
+            v = parts[0]
 
             if fix_common_mistakes:
                 v = v[:11]
@@ -360,9 +365,13 @@ def parse_youtube_url(url, fix_common_mistakes=True):
         if len(splitted_path) < 2:
             return None
 
-        name = splitted_path[1]
+        name = splitted_path[1].lstrip("@")
 
-        return YoutubeChannel(id=None, name=name.lstrip("@"))
+        # NOTE: the canonical url of a named channel is youtube.com/<name>
+        if not name or name in YOUTUBE_CHANNEL_NAME_BLACKLIST:
+            return None
+
+        return YoutubeChannel(id=None, name=name)
 
     elif path.startswith("/channel/"):
         splitted_path = pathsplit(path)
@@ -400,7 +409,7 @@ def parse_youtube_url(url, fix_common_mistakes=True):
 
             name = name.lstrip("@")
 
-            if not name:
+            if not name or name in YOUTUBE_CHANNEL_NAME_BLACKLIST:
                 return
 
             return YoutubeChannel(id=None, name=name)
